@@ -17,6 +17,7 @@ BM = 'src/control/bitmask.rs'
 GEN = 'src/control/group/generic.rs'
 SERDE = 'src/external_trait_impls/serde.rs'
 SET = 'src/set.rs'
+MAP = 'src/map.rs'
 
 
 def I(file, ctx, fn, impl=None, key=None, nth=None, rename=None):
@@ -244,6 +245,8 @@ UNITS = {
             I(SET, HSCTX, 'is_subset', impl='HashSet<T>', key='HashSet::is_subset'),
             I(SET, HSCTX, 'is_superset', impl='HashSet<T>', key='HashSet::is_superset'),
             I(SET, HSCTX, 'is_disjoint', impl='HashSet<T>', key='HashSet::is_disjoint'),
+            I(SET, r'^impl < T , S , A > PartialEq for HashSet < T , S , A > where', 'eq', impl='HashSet<T>', key='HashSet::eq'),
+            I(MAP, r'^impl < K , V , S , A > PartialEq for HashMap < K , V , S , A > where', 'eq', impl='HashMap<K, V>|<K, V: PartialEq>', key='HashMap::eq'),
         ],
     ),
 }
@@ -924,10 +927,40 @@ def set_rules(toks, i, out, hit):
         out.append(T('>', ''))
         hit('R24_hasher_allocator_params_dropped')
         return i + 5
-    if t.text == '.' and seq(i + 1, 'all', '(', '|') and toks[i + 4].kind == 'id' and seq(i + 5, '|'):
+    # R25: `X.map_or(D, |v| E)` -> `match X { Some(v) => E, None => D }`
+    if t.text == '.' and seq(i + 1, 'map_or', '('):
         c = extract._find_close(toks, i + 2)
-        E = extract.rewrite(toks[i + 6:c], set(), _HITS, set_rules)
-        V = toks[i + 4].text
+        args = extract._split_args(toks[i + 3:c])
+        if len(args) != 2 or args[1][0].text != '|' or args[1][2].text != '|':
+            raise ExtractError('R25: unexpected shape of map_or')
+        D = extract.rewrite(args[0], set(), _HITS, set_rules)
+        v = args[1][1].text
+        E = extract.rewrite(args[1][3:], set(), _HITS, set_rules)
+        k = len(out) - 1
+        depth = 0
+        while k >= 0:
+            x = out[k].text
+            if x in (')', ']'):
+                depth += 1
+            elif x in ('(', '['):
+                if depth == 0:
+                    break
+                depth -= 1
+            elif depth == 0 and x in ('&', '|', '=', ';', '{', '}', '!'):
+                break
+            k -= 1
+        recv = out[k + 1:]
+        del out[k + 1:]
+        out.extend([T('match')] + recv + [T('{'), T('Some'), T('(', ''), T(v, ''), T(')', ''), T('='), T('>', '')] + E + [T(',', ''), T('None'), T('='), T('>', '')] + D + [T(',', ''), T('}')])
+        hit('R25_option_map_or_to_match')
+        return c + 1
+    if t.text == '.' and seq(i + 1, 'all', '(', '|'):
+        c = extract._find_close(toks, i + 2)
+        pe = i + 4
+        while toks[pe].text != '|':
+            pe += 1
+        PAT = toks[i + 4:pe]
+        E = extract.rewrite(toks[pe + 1:c], set(), _HITS, set_rules)
         # receiver: back to the previous `&&`, `||`, `=`, `;`, `{` or `(` at depth 0
         k = len(out) - 1
         depth = 0
@@ -939,14 +972,14 @@ def set_rules(toks, i, out, hit):
                 if depth == 0:
                     break
                 depth -= 1
-            elif depth == 0 and x in ('&', '|', '=', ';', '{'):
+            elif depth == 0 and x in ('&', '|', '=', ';', '{', '}'):
                 break
             k -= 1
         recv = out[k + 1:]
         del out[k + 1:]
         out.extend([T('{'), T('let'), T('mut'), T('it_'), T('=')] + recv + [T(';', ''), T('let'), T('mut'), T('all_'), T('='), T('true'), T(';', ''),
                     T('loop', '\n'), T('{'), T('match'), T('it_'), T('.', ''), T('next', ''), T('(', ''), T(')', ''), T('{'),
-                    T('Some'), T('(', ''), T(V, ''), T(')', ''), T('='), T('>', ''), T('{'), T('if'), T('!'), T('(', '')] + E +
+                    T('Some'), T('(', '')] + [T(x.text, x.gap, x.kind) for x in PAT] + [T(')', ''), T('='), T('>', ''), T('{'), T('if'), T('!'), T('(', '')] + E +
                    [T(')', ''), T('{'), T('all_'), T('='), T('false'), T(';', ''), T('break'), T(';', ''), T('}'), T('}'),
                     T('None'), T('='), T('>', ''), T('{'), T('break'), T(';', ''), T('}'), T('}'), T('}'), T('all_', '\n'), T('}')])
         hit('R23_iterator_all_to_loop')
@@ -994,6 +1027,8 @@ def generate(unit_name, width, outdir):
     parts += [f + '\n\n' for f in free]
     for name, fns in impls.items():
         gen = name[name.index('<'):] if '<' in name else ''
+        if '|' in name:      # `Type<..>|<generic parameter list with bounds>`
+            name, gen = name.split('|')
         parts.append('impl%s %s {\n%s\n}\n\n' % (gen, name, '\n\n'.join(fns)))
     for lf in u.get('lemmas', []):
         parts.append('// ---- lemma file %s ----\n' % lf)
